@@ -112,10 +112,15 @@ type Act struct {
 // BatchCase is a batch of requests and the order in which they are started
 // and released.
 type BatchCase struct {
-	Reqs   []ReqSpec `json:"reqs"`
-	Script []Act     `json:"script"`
-	Level  int       `json:"level"`
-	Procs  int       `json:"procs"`
+	// BaseMin is the minimum level the base logger's handler lets through:
+	// when it is above Level the middleware's own started/finished records
+	// are not written, but the handler's Error records still are and must
+	// carry the request's attributes.
+	BaseMin int       `json:"base_min"`
+	Reqs    []ReqSpec `json:"reqs"`
+	Script  []Act     `json:"script"`
+	Level   int       `json:"level"`
+	Procs   int       `json:"procs"`
 }
 
 type logRec struct {
@@ -130,9 +135,10 @@ type recHandler struct {
 	mu    *sync.Mutex
 	recs  *[]logRec
 	attrs []slog.Attr
+	min   slog.Level // records below this level are not enabled
 }
 
-func (h *recHandler) Enabled(context.Context, slog.Level) bool { return true }
+func (h *recHandler) Enabled(_ context.Context, l slog.Level) bool { return l >= h.min }
 func (h *recHandler) Handle(_ context.Context, r slog.Record) error {
 	lr := logRec{msg: r.Message, attrs: map[string]string{}}
 	for _, a := range h.attrs {
@@ -148,7 +154,7 @@ func (h *recHandler) Handle(_ context.Context, r slog.Record) error {
 	return nil
 }
 func (h *recHandler) WithAttrs(as []slog.Attr) slog.Handler {
-	return &recHandler{mu: h.mu, recs: h.recs, attrs: as}
+	return &recHandler{mu: h.mu, recs: h.recs, attrs: as, min: h.min}
 }
 func (h *recHandler) WithGroup(string) slog.Handler { return h }
 
@@ -197,7 +203,8 @@ func checkBatch(c BatchCase) error {
 	vp.CurrentJSON("c20.batch", c)
 	var mu sync.Mutex
 	var recs []logRec
-	mw := httputil.NewLogMiddleware(slog.New(&recHandler{mu: &mu, recs: &recs}), slog.Level(c.Level))
+	mw := httputil.NewLogMiddleware(slog.New(&recHandler{mu: &mu, recs: &recs, min: slog.Level(c.BaseMin)}), slog.Level(c.Level))
+	mwEnabled := c.Level >= c.BaseMin
 
 	n := len(c.Reqs)
 	gates := make([]chan struct{}, n)
@@ -246,7 +253,7 @@ func checkBatch(c BatchCase) error {
 			fail("request %s: no logger in the context", id)
 		} else {
 			for k := 0; k < spec.Logs; k++ {
-				l.Info("inside", "id", id, "k", k)
+				l.Error("inside", "id", id, "k", k)
 			}
 		}
 		if spec.Header {
@@ -399,8 +406,12 @@ func checkBatch(c BatchCase) error {
 		}
 	}
 	for i, p := range per {
-		if p.started != 1 || p.finished != 1 || p.inside != c.Reqs[i].Logs {
-			return fmt.Errorf("request %s: %d started, %d finished, %d inside records; want 1, 1, %d", reqID(i), p.started, p.finished, p.inside, c.Reqs[i].Logs)
+		wantMW := 1
+		if !mwEnabled {
+			wantMW = 0
+		}
+		if p.started != wantMW || p.finished != wantMW || p.inside != c.Reqs[i].Logs {
+			return fmt.Errorf("request %s: %d started, %d finished, %d inside records; want %d, %d, %d (middleware level %d, base logger minimum %d)", reqID(i), p.started, p.finished, p.inside, wantMW, wantMW, c.Reqs[i].Logs, c.Level, c.BaseMin)
 		}
 	}
 	if maxParked >= 2 {
@@ -415,6 +426,9 @@ func checkBatch(c BatchCase) error {
 	if startedAfterFinish {
 		vp.Class("batch:a-request-started-after-another-finished(pool reuse)")
 	}
+	if !mwEnabled {
+		vp.Class("batch:middleware-level-disabled-in-base-logger")
+	}
 	if maxParked >= 2 && startedAfterFinish {
 		vp.Class("batch:nontrivial")
 		vp.NonTrivialStr("c20.batch", fmt.Sprintf("%+v", c))
@@ -427,7 +441,7 @@ var batchProp = vp.Register(vp.Prop[BatchCase]{
 	Kind: "c20.batch", Base: 2000,
 	Gen: func(t *rapid.T) BatchCase {
 		n := rapid.IntRange(2, 12).Draw(t, "requests")
-		c := BatchCase{Level: rapid.SampledFrom([]int{-4, 0, 4}).Draw(t, "level")}
+		c := BatchCase{Level: rapid.SampledFrom([]int{-4, 0, 4}).Draw(t, "level"), BaseMin: rapid.SampledFrom([]int{-8, -8, -4, 0, 4, 8}).Draw(t, "basemin")}
 		var acts []Act
 		for i := 0; i < n; i++ {
 			c.Reqs = append(c.Reqs, ReqSpec{
